@@ -423,6 +423,26 @@ func runC06(c *Ctx) error {
 		}
 	}
 
+	// ---- a lagging sync peer, an honest peer with more announces by inv and is asked: it must be followed up until exhausted ----
+	{
+		n := 7
+		u := &History{Subs: linearSubs(2, genesisID, n+2, bitsW2, tsNew)}
+		for _, lag := range []int{2, 4} {
+			for _, cp := range []int{1, 2} {
+				for _, cps := range [][]cpSpec{{{1, 2}}, {{1, 2}, {n - lag, n - lag + 1}}} {
+					l := &nodeSpec{P: 1, Cap: 2000, Chain: seqInts(2, n-lag)}
+					h := &nodeSpec{P: 2, Cap: cp, Chain: seqInts(2, n), Reserve: seqInts(n+2, 2)}
+					for _, cmds := range [][]string{{"C1", "R40", "C2", "R40", "A2.1.i", "R80"}, {"C1", "C2", "R40", "A2.2.i", "R80"}} {
+						sc := &Scenario{Eng: "d", Cps: cps, U: u, Nodes: []*nodeSpec{l, h}, Cmds: cmds}
+						if err := g.do(sc, "lagging-followup"); err != nil {
+							return err
+						}
+					}
+				}
+			}
+		}
+	}
+
 	// ---- random mixtures ----
 	nr := c.Pick(250, 2500)
 	for i := 0; i < nr; i++ {
